@@ -5,6 +5,7 @@
 -/
 import CM.Driver.BagOps
 import CM.Model.Factory
+import CM.Model.Merge
 open Lean
 namespace CM
 
@@ -14,6 +15,7 @@ partial def edgeKToJson : EdgeK → Json
       ("silent", .arr (silent.map fun (n : Nat) => toJson n).toArray)]
   | .constant v => Json.mkObj [("k", .str "const"), ("v", valToJson v)]
   | .cache s => Json.mkObj [("k", .str "cache"), ("store", toJson s)]
+  | .switch table => Json.mkObj [("k", .str "switch"), ("table", .arr (table.map fun (k, i) => Json.arr #[valToJson k, toJson i]).toArray)]
   | .impure inner => Json.mkObj [("k", .str "impure"), ("inner", edgeKToJson inner)]
   | .byValue inner => Json.mkObj [("k", .str "byvalue"), ("inner", edgeKToJson inner)]
   | _ => Json.mkObj [("k", .str "other")]
@@ -44,6 +46,17 @@ def opFactory (j : Json) : P Json := do
     pure (match cacheBag 0 names prev with
       | .ok b => Json.mkObj [("ok", bagToJsonSem b), ("wf", .bool b.wfB)]
       | .error e => bagErrToJson e)
-  pure (Json.mkObj [("outs", .arr outs.toArray), ("caches", .arr cs.toArray)])
+  let ms ← (← jArr (jFieldD j "merges" (.arr #[]))).mapM fun m => do
+    let parts ← (← jArr (← jField m "parts")).mapM bagOfJson
+    let table ← (← jArr (← jField m "table")).mapM fun r => do
+      match ← jArr r with
+      | [key, i] => pure ((← valOfJson key), (← i.getNat?))
+      | _ => throw "bad routing row"
+    let keys ← (← jField m "keys").getStr?
+    pure (match mergeBags table parts keys with
+      | .ok b => Json.mkObj [("ok", bagToJsonSem b), ("wf", .bool b.wfB)]
+      | .error .value => Json.mkObj [("err", .str "ValueError")]
+      | .error (.bag e) => bagErrToJson e)
+  pure (Json.mkObj [("outs", .arr outs.toArray), ("caches", .arr cs.toArray), ("merges", .arr ms.toArray)])
 
 end CM
